@@ -131,6 +131,7 @@ pub mod k {
     pub const SPOOF_FRESH_BLACKOUT: i128 = 98; // us: after that spoofed copy every client datagram is lost for this long
     pub const DGRAM_SIZE2: i128 = 100; // size of the 'small' datagrams of DGRAM_ALT (default 100)
     pub const PREFERRED_ADDR: i128 = 99; // 1: the server advertises a preferred address (its own), i.e. one more CID issued in the transport parameters
+    pub const NEW_MAXSTREAMS_SIDE: i128 = 101; // 0: the CLIENT application calls set_max_concurrent_streams right after connect() (during the handshake / 0-RTT phase); 1 (default): the server at NEW_MAXSTREAMS_AT
     pub const DGRAM_START: i128 = 81; // us: application datagrams are not sent before this instant
     pub const RECONNECT: i128 = 70; // open this many further client connections, one per drained connection (slot reuse)
 }
@@ -685,7 +686,18 @@ impl World {
         if let Some(sh) = &self.tp {
             sh.cur_idx.store(idx as i64, std::sync::atomic::Ordering::SeqCst);
         }
-        let (ch, conn) = self.eps[0].ep.connect(now, cfg, saddr, "localhost").unwrap();
+        let (ch, mut conn) = self.eps[0].ep.connect(now, cfg, saddr, "localhost").unwrap();
+        if !warmup && self.p.get(k::NEW_MAXSTREAMS_SIDE, 1) == 0 {
+            let nb = self.p.get(k::NEW_MAX_BIDI, -1);
+            let nu = self.p.get(k::NEW_MAX_UNI, -1);
+            if nb >= 0 {
+                conn.set_max_concurrent_streams(Dir::Bi, VarInt::from_u64(nb as u64).unwrap());
+            }
+            if nu >= 0 {
+                conn.set_max_concurrent_streams(Dir::Uni, VarInt::from_u64(nu as u64).unwrap());
+            }
+            self.trace.push(vec![13, self.now as i128, 13, nb, nu]);
+        }
         if let Some(sh) = &self.tp {
             // outcomes logged inside connect concern the parameters remembered with the session
             // ticket (0-RTT): informational WORLD record 10, not an expectation
@@ -1267,7 +1279,7 @@ impl World {
                         if no_redo {
                             // stay connected for a while: anything left over from the early attempt
                             // would now be sent
-                            app.hold_close_until = now_us + 300_000;
+                            app.hold_close_until = now_us + 300_000u64.max(12 * self.p.get(k::DELAY_MAX, 10_000).max(self.p.get(k::DELAY_MIN, 10_000)) as u64);
                             new_app_wake = Some(app.hold_close_until);
                         }
                         app.want_bidi = if no_redo { 0 } else { self_nbidi };
@@ -1516,7 +1528,7 @@ impl World {
                         let r = conn.send_stream(id).reset(VarInt::from_u32(55));
                         o.reset = true;
                         // give the RESET_STREAM time to arrive before the connection is closed
-                        app.hold_close_until = app.hold_close_until.max(now_us + 300_000);
+                        app.hold_close_until = app.hold_close_until.max(now_us + 300_000u64.max(12 * self.p.get(k::DELAY_MAX, 10_000).max(self.p.get(k::DELAY_MIN, 10_000)) as u64));
                         new_app_wake = Some(app.hold_close_until);
                         tr.push(vec![3, t, e, c, 4, sid as i128, 55, r.is_ok() as i128]);
                         did = true;
@@ -1996,7 +2008,7 @@ impl World {
                 self.trace.push(vec![13, self.now as i128, 11, 1]);
             }
             let ms_at = self.p.get(k::NEW_MAXSTREAMS_AT, 0);
-            if ms_at > 0 && !maxstreams_done && self.now as i128 >= ms_at {
+            if ms_at > 0 && !maxstreams_done && self.now as i128 >= ms_at && self.p.get(k::NEW_MAXSTREAMS_SIDE, 1) == 1 {
                 let nb = self.p.get(k::NEW_MAX_BIDI, -1);
                 let nu = self.p.get(k::NEW_MAX_UNI, -1);
                 // once every expected server connection exists and has completed its handshake
